@@ -23,6 +23,10 @@ namespace c06
   }
   inline void common_tags(vh::Ctx& c, Index n, const char* dt, const char* it)
   { c.tag(size_tag(n)); c.tag(std::string("dt:") + dt); c.tag(std::string("it:") + it); }
+} // namespace c06
+#include "mix.hpp"
+namespace c06
+{
 
   // ------------------------------------------------------------------ NoneFilter / NoneFilterBlocked: nothing may change
   template<typename DT, typename IT>
@@ -266,7 +270,8 @@ namespace c06
     }
   }
 
-  // sel: 0 none, 1 chain unit+unit, 2 sequence, 3/4 chain slip+unit <2>/<3>, 5 power, 6 tuple(power,mean), 7 tuple(blocked,unit), 8 global
+  // sel: 0 none, 1 chain unit+unit, 2 sequence, 3/4 chain slip+unit <2>/<3>, 5 power, 6 tuple(power,mean), 7 tuple(blocked,unit), 8 global,
+  //      9..15 scalar mixes with mean filters, 16..19 blocked<2> mixes, 20..21 blocked<3> mixes, 22..25 tuple/power mixes
   template<typename DT, typename IT>
   void composed_dispatch(vh::Ctx& c, long, int sel)
   {
@@ -280,7 +285,12 @@ namespace c06
     case 5: power_tuple_case<DT, IT>(c, 0); break;
     case 6: power_tuple_case<DT, IT>(c, 1); break;
     case 7: power_tuple_case<DT, IT>(c, 2); break;
-    default: global_case<DT, IT>(c); break;
+    case 8: global_case<DT, IT>(c); break;
+    case 9: case 10: case 11: case 12: case 13: case 14: case 15: mix_scalar_case<DT, IT>(c, sel - 9); break;
+    case 16: case 17: case 18: case 19: mix_blocked_case<DT, IT, 2>(c, sel - 16); break;
+    case 20: mix_blocked_case<DT, IT, 3>(c, 0); break;
+    case 21: mix_blocked_case<DT, IT, 3>(c, 3); break;
+    default: mix_meta_case<DT, IT>(c, (sel - 22) & 3); break;
     }
   }
 } // namespace c06
